@@ -160,6 +160,30 @@ def transcript_oracles(prop, ops, outs, rp, res):
             want = 1 if (kind == "rexec" or side == "A") else 0
             if cid % 2 != want:
                 res.violations.append(dict(case=case, what=f"id {cid} allocated by side {side if kind != 'rexec' else 'A'} has the wrong parity"))
+    if prop in ("C10", "C18") and getattr(rp, "digest", None):
+        # a conversation that the peer has ended (close / end of the body / drop) and whose frames have all been delivered:
+        # a callback registered with an endmarker has got it, and the callback table has forgotten the id
+        import re as _re2
+        outs_empty = all(m.group(1) == "-" for m in _re2.finditer(r"\bout=(\S+)", rp.digest)) and rp.digest.count("out=") == 2
+        if outs_empty and "fin=1" not in rp.digest:
+            ended = set()
+            for op, out in zip(ops, outs):
+                t = op.split()
+                if t[0] == "close" and out == "ok":
+                    ended.add((peer[t[1]], int(t[2])))
+                elif t[0] == "finish" and out in ("ok", "OSError"):
+                    ended.add(("A", int(t[1])))
+            for (side, cid) in sorted(ended):
+                if (side, cid) in aliased or (peer[side], cid) in aliased:
+                    continue
+                wants = [a for (nm, a, o) in api.get((side, cid), []) if nm == "setcb" and o == "ok"]
+                if not wants:
+                    continue
+                log = rp.cblog_final[side].get(cid, [])
+                if wants[-1] and wants[-1][0] == "1" and "E" not in log:
+                    res.violations.append(dict(case=case, what=f"the peer ended conversation {cid} and every frame was delivered, but the callback on side {side} never got its endmarker (log {log[-3:]})"))
+                if cid in rp.cbs_final[side]:
+                    res.violations.append(dict(case=case, what=f"callback of the ended conversation {cid} is still registered on side {side}"))
     if prop == "C18" and getattr(rp, "digest", None):
         # "once a channel is closed or dropped both sides forget it": an id whose last reference was dropped is not in that
         # side's channel table at the end (the generator never re-opens a dropped id on the same side)
@@ -662,13 +686,14 @@ def scenario_callback_error(ctx, res, rng, idx):
     scen_case(res, "callback-error", params, sc, problems)
 
 
-def scenario_ids(ctx, res, rng, idx):
-    """C18: concurrent creators on both sides, channels travelling over channels, tables back to baseline"""
+def scenario_ids(ctx, res, rng, idx, preempt=0):
+    """C18: concurrent creators on both sides, channels travelling over channels, tables back to baseline
+    (preempt > 0: line-level pre-emptions inside execnet's code, e.g. between reading and advancing the id counter)"""
     execnet = ctx.execnet
     ncycles = rng.choice([2, 5, 12])
-    nthreads = rng.choice([1, 2, 3])
-    params = dict(cycles=ncycles, threads=nthreads)
-    sc = netthreads.Scenario(execnet, rng)
+    nthreads = rng.choice([1, 2, 3]) if not preempt else rng.choice([2, 3])
+    params = dict(cycles=ncycles, threads=nthreads, preempt=preempt)
+    sc = netthreads.Scenario(execnet, rng, preempt=preempt)
     problems = []
     ids_a = []
     ids_b = []
@@ -775,6 +800,7 @@ def scenario_cut(ctx, res, rng, idx):
     cbs = {}
     waits = {}
     after = {}
+    endnew = {}
     END = object()
 
     def main(sc, gw, ctl):
@@ -797,7 +823,22 @@ def scenario_cut(ctx, res, rng, idx):
                     threads.append(sc.spawn(netthreads.drain, ch, o, None, name="recv%d_%d" % (k, j)))
             elif modes[k] == "cb":
                 log = cbs.setdefault(k, [])
-                ch.setcallback(lambda x, log=log: log.append("END" if x is END else x), endmarker=END)
+
+                def cb(x, log=log, k=k):
+                    if x is END:
+                        # "from then on … newchannel raise OSError": asked at the very moment the loss is reported
+                        try:
+                            gw.newchannel()
+                            endnew[k] = "accepted"
+                        except OSError:
+                            endnew[k] = "OSError"
+                        except BaseException as e:  # noqa: BLE001
+                            if isinstance(e, S.SchedAbort):
+                                raise
+                            endnew[k] = "exc " + type(e).__name__
+                    log.append("END" if x is END else x)
+                ch.setcallback(cb, endmarker=END)
+                del cb
             else:
                 def waiter(ch=ch, k=k):
                     try:
@@ -876,6 +917,8 @@ def scenario_cut(ctx, res, rng, idx):
                 problems.append(f"conversation {k}: callback got {len(items)} items, exactly {len(want)} frames were complete before the cut")
             if log.count("END") != 1 or log[-1] != "END":
                 problems.append(f"conversation {k}: endmarker not delivered exactly once at the end after connection loss: {log[-3:]}")
+            if not close_seen.get(cid) and endnew.get(k) not in (None, "OSError"):
+                problems.append(f"conversation {k}: newchannel() called from the callback that was just told about the connection loss (its endmarker) gave {endnew.get(k)}, expected OSError")
         for k, w in waits.items():
             cid = 2 * k + 1
             # waitclose returns normally only if the conversation's own close frame arrived completely; otherwise the
@@ -913,7 +956,7 @@ REMOTE_STREAM = """
 spec = channel.receive()
 n_out, echo = spec
 for i in range(n_out):
-    channel.send(("B", i, b"x" * (i % 7 * 1000)))
+    channel.send(("B", i, b"x" * (400000 if i == 2 else i % 7 * 1000)))
 if echo:
     for item in channel:
         if item == "fin":
@@ -931,7 +974,11 @@ def process_level_streams(ctx, res, nconv=4, spec="popen"):
     group = execnet.Group()
     problems = []
     try:
-        gw = group.makegateway(spec)
+        if spec == "socket-installvia":
+            group.makegateway("popen//id=sockmaster")
+            gw = group.makegateway("socket//installvia=sockmaster")
+        else:
+            gw = group.makegateway(spec)
         plans = [(rng.choice([0, 5, 40]), rng.choice([0, 3, 25])) for _ in range(nconv)]
         chans = []
         got = [[] for _ in plans]
@@ -942,7 +989,7 @@ def process_level_streams(ctx, res, nconv=4, spec="popen"):
 
         def sender(ch, n):
             for i in range(n):
-                ch.send(("A", i, b"y" * (i % 5 * 3000)))
+                ch.send(("A", i, b"y" * (300000 if i == 1 else i % 5 * 3000)))
             if n:
                 ch.send("fin")
 
@@ -966,7 +1013,10 @@ def process_level_streams(ctx, res, nconv=4, spec="popen"):
             if t.is_alive():
                 problems.append("a thread hung on the real gateway")
         for k, ((n_out, n_in), out) in enumerate(zip(plans, got)):
-            exp = [("B", i, b"x" * (i % 7 * 1000)) for i in range(n_out)] + [("echo", ("A", i, b"y" * (i % 5 * 3000))) for i in range(n_in)] + ["EOF"]
+            # (one item of several hundred kB per direction: a socket delivers it in many recv() pieces while the next frames
+            # are already queued behind it)
+            exp = ([("B", i, b"x" * (400000 if i == 2 else i % 7 * 1000)) for i in range(n_out)] +
+                   [("echo", ("A", i, b"y" * (300000 if i == 1 else i % 5 * 3000))) for i in range(n_in)] + ["EOF"])
             if out != exp:
                 problems.append(f"conversation {k} over a real {spec} gateway: received {len(out) - 1} items, expected {len(exp) - 1} (order/dup/loss/leak)")
         res.count(("proc-streams", spec, repr(plans)))
@@ -981,9 +1031,17 @@ def process_level_streams(ctx, res, nconv=4, spec="popen"):
 
 def process_level_multichannel(ctx, res, ngw=2):
     """C10: MultiChannel.make_receive_queue over several REAL gateways — per member channel: every item once,
-    in order, then exactly one endmarker"""
-    execnet = ctx.execnet
+    in order, then exactly one endmarker; the endmarker may be any value the caller chooses (None, 0, "", a tuple …)"""
     rng = ctx.rng("proc-multichannel")
+    ends = [None, rng.choice(["<end>", 0, "", (), -1, False])]
+    if ctx.thorough:
+        ends += ["<end>", 0, "", (), -1, False]
+    for k, end in enumerate(ends):
+        _process_level_multichannel(ctx, res, ngw, end, common.rng_for(ctx.seed, "proc-multichannel:%d" % k))
+
+
+def _process_level_multichannel(ctx, res, ngw, END, rng):
+    execnet = ctx.execnet
     group = execnet.Group()
     problems = []
     try:
@@ -993,14 +1051,13 @@ def process_level_multichannel(ctx, res, ngw=2):
         mch = group.remote_exec("n = channel.receive()\nfor i in range(n):\n    channel.send((n, i))\n")
         for ch, n in zip(mch, counts):
             ch.send(n)
-        END = "<end>"
         q = mch.make_receive_queue(endmarker=END)
         per = {ch: [] for ch in mch}
         ends = 0
         while ends < ngw:
-            ch, obj = q.get(timeout=30)
+            ch, obj = q.get(timeout=10)
             per[ch].append(obj)
-            if obj == END:
+            if type(obj) is type(END) and obj == END:
                 ends += 1
         import queue as _q
         try:
@@ -1017,11 +1074,11 @@ def process_level_multichannel(ctx, res, ngw=2):
                 problems.append("receive() accepted on a MultiChannel member after make_receive_queue")
             except OSError:
                 pass
-        res.count(("proc-multichannel", repr(counts)))
+        res.count(("proc-multichannel", repr(counts), repr(END)))
         res.stat("process_level_runs")
     except Exception as e:  # noqa: BLE001
-        problems.append("process-level MultiChannel run failed: %r" % (e,))
+        problems.append("process-level MultiChannel run (endmarker=%r) failed: %r" % (END, e))
     finally:
         group.terminate(timeout=3.0)
     for p in problems:
-        res.violations.append(dict(case={"scenario": "process-multichannel"}, what=p))
+        res.violations.append(dict(case={"scenario": "process-multichannel", "endmarker": repr(END)}, what=p))
